@@ -86,6 +86,28 @@ def term_case(case):
     return {"ok": True, "nt": len(ops) >= 2, "ops": k, "out": "certified" if certified else "grid-only", "extra": {"certified": int(certified)}}
 
 
+def far_case(case):
+    """{'c': c, 'ops': {q: p}, 'times': [...]}: terms whose qubits include indices >= 8 (an order taken from a set of small ints stops being ascending there):
+    the circuit's matrix on the 9-10 qubit register is exp(-i t c P)"""
+    from orquestra.quantum.evolution import time_evolution_for_term
+    c, ops = case["c"], case["ops"]
+    term = mk_term([c, ops])
+    n = width(ops)
+    P = rp.string_matrix(ops, n)
+    k = 0
+    for tt in case["times"]:
+        circ = time_evolution_for_term(term, float(tt))
+        k += 1
+        if circ.n_qubits > n:
+            return {"ok": False, "msg": "evolution circuit is wider than the term", "sig": "far:width"}
+        U = padded_unitary(circ, n)
+        exp = np.cos(c * tt) * np.eye(2 ** n) - 1j * np.sin(c * tt) * P
+        if not np.allclose(U, exp, atol=ATOL):
+            return {"ok": False, "msg": "circuit for %s*%s at t=%.4f is not exp(-i t c P) on %d qubits" % (c, ops, tt, n), "observed": str([(o.gate.name, o.qubit_indices) for o in circ.operations])[:400],
+                    "sig": "far:matrix", "ops": k}
+    return {"ok": True, "nt": len(ops) >= 2, "ops": k, "out": "n%d" % n}
+
+
 def special_case(case):
     from orquestra.quantum.evolution import time_evolution_for_term, time_evolution
     from orquestra.quantum.operators import PauliTerm, PauliSum
@@ -236,7 +258,7 @@ def symbolic_case(case):
     return {"ok": True, "nt": True, "ops": 2, "out": "symbolic"}
 
 
-FUNCS = {"terms": term_case, "special": special_case, "sums": sum_case, "derivatives": deriv_case, "symbolic_time": symbolic_case}
+FUNCS = {"far_qubits": far_case, "terms": term_case, "special": special_case, "sums": sum_case, "derivatives": deriv_case, "symbolic_time": symbolic_case}
 
 
 def run(run):
@@ -251,6 +273,10 @@ def run(run):
         if jdump(s) not in seen:
             seen.add(jdump(s)); uniq.append(s)
     secs = [Section("terms", [{"c": c, "ops": s} for s in uniq for c in (1.0, -0.5, 2.5)], term_case, horizon=300, desc="single-term evolution vs cos(ct) I - i sin(ct) P, certificate + 8-point grid")]
+    far = [{"1": "Z", "8": "Z"}, {"3": "X", "8": "Y"}, {"1": "Y", "2": "Z", "8": "X"}, {"8": "X"}, {"0": "Z", "8": "X"}, {"8": "Y", "5": "Z"}, {"7": "X", "8": "Z"}, {"0": "X", "4": "Y", "8": "Z"},
+           {"8": "Z", "3": "Z", "1": "Z"}] + ([{"0": "X", "9": "Z"}, {"1": "Y", "8": "Z", "9": "X"}, {"9": "Y", "2": "X"}] if thorough else [{"2": "Y", "9": "X"}])
+    secs.append(Section("far_qubits", [{"c": c, "ops": o, "times": [0.37, -1.3] if thorough else [0.37]} for o in far for c in ((1.0, -0.5) if thorough else (-0.5,))], far_case, horizon=600, chunk=1,
+                        desc="single-term evolution on 9-10 qubit registers: terms touching qubits 8 and 9 next to low qubits"))
     sp = [{"kind": "constant"}, {"kind": "tiny-imag"}, {"kind": "method"}] + [{"kind": "imag", "c": c} for c in ([1, 0.5], [1, -0.5], [0, 0.5], [0, -0.5], [1, 1e-3], [1, -1e-3],
                                                                                                    # small in relative terms, still far (>= 1000x) above the 1e-9 cut: dropping them changes exp(-itH) visibly
                                                                                                    [1, 1e-6], [1, -1e-6], [2.5, 1e-5], [1000, 5e-3], [1000, -5e-3], [1e-3, 1e-6], [0, 1e-6], [123456.0, 1e-3])]
